@@ -278,13 +278,35 @@ def gen_case(rng):
     return rules, expected
 
 
+CORE_ALT = ["ALPHA", "BIT", "CTL", "HEXDIG", "WSP", "DIGIT", "CRLF"]
+
+
+def core_snapshot(P):
+    """structure of every core rule and of the reader's own rules: compiling a text into some class must never change
+    them (the text denotes rules of THAT class only)"""
+    return {(c.__name__, k[1]): repr(dump(P, r.definition)) for k, r in list(P.Rule._obj_map.items())
+            for c in [k[0]] if c in (P.Rule, P.ABNFGrammarRule) and hasattr(r, "definition")}
+
+
 def check_case(P, rng, rules, expected, route, plain):
     r = Render(rng, plain=plain)
     texts = [r.rule(nm, op, a) for nm, op, a in rules]
+    expected = dict(expected)
+    if rng.random() < 0.35:
+        # extend a CORE rule's name inside this class: the class gets its own rule = core definition / new alternative
+        core = rng.choice(CORE_ALT)
+        b = Gen(rng).alt(1)
+        texts.append(r.rule("".join(rng.choice([c.lower(), c.upper()]) for c in core), "=/", b))
+        expected[core.lower()] = ("alt", [dump(P, P.Rule(core).definition), sem_alt(b)])
+    before = core_snapshot(P)
     try:
         cls = compile_route(P, route, texts)
     except Exception as e:  # noqa
         return texts, f"{type(e).__name__}: {str(e)[:120]}"
+    after = core_snapshot(P)
+    if after != before:
+        changed = sorted(k for k in set(before) | set(after) if before.get(k) != after.get(k))
+        return texts, f"compiling into a fresh class changed shared rules {changed[:4]}: e.g. {before.get(changed[0])!r} -> {after.get(changed[0])!r}"
     for nm, exp in expected.items():
         rule = cls.get(nm)
         if rule is None or not hasattr(rule, "definition"):
@@ -429,11 +451,61 @@ def real_create(P, text):
         return "exc " + type(ex).__name__
 
 
-def compile_correspondence(P, rng, ncases):
+def ref_dump(a):
+    k = a[0]
+    if k == "lit":
+        return "(lit %d%s)" % (1 if a[2] else 0, "".join(" %d" % ord(c) for c in a[1]))
+    if k == "range":
+        return "(range %d %d)" % (a[1], a[2])
+    if k == "prose":
+        return "(prose)"
+    if k in ("alt", "cat"):
+        return "(" + k + "".join(" " + ref_dump(x) for x in a[1]) + ")"
+    if k == "rep":
+        return "(rep %d %s %s)" % (a[1], "-" if a[2] is None else a[2], ref_dump(a[3]))
+    if k == "opt":
+        return "(opt " + ref_dump(a[1]) + ")"
+    if k == "refname":
+        return "(ref" + "".join(" %d" % ord(c) for c in fold_ascii(a[1])) + ")"
+    raise ValueError(a)
+
+
+def ref_create(text):
+    """the INDEPENDENT reading of a rule text (harness/abnf_ref.py, written without the library): operator and structure,
+    'ParseError' if it is not a rule, 'exc' if a number is no code point.  Used to adjudicate a disagreement between the
+    compiler model and the code: which of the two the text really denotes."""
+    import abnf_ref
+    try:
+        _name, op, ast = abnf_ref.read_rule(text)
+    except abnf_ref.AbnfSyntaxError:
+        return "ParseError"
+    except (ValueError, OverflowError):
+        return "exc"
+    return op + " | " + ref_dump(ast)
+
+
+def strip_name(outcome):
+    if outcome.startswith("ok"):
+        return outcome.split(" | ", 1)[1]
+    return "exc" if outcome.startswith("exc") else outcome
+
+
+def compile_correspondence(P, rng, ncases, nbundled=0):
     """returns (number of texts, outcome kinds, disagreements [(text, model, code)])"""
     enc = lib.Encoder(P, [P.ABNFGrammarRule("rule")])
     glines = enc.grammar_lines()
     texts = list(HAND_TEXTS)
+    # the rule texts of the bundled grammar modules (those given as lists of single rules): real-world corpus
+    import bundled
+    corpus = []
+    for m in bundled.module_names():
+        mod = bundled.load(m)
+        for obj in vars(mod).values():
+            g = getattr(obj, "grammar", None)
+            if isinstance(obj, type) and issubclass(obj, P.Rule) and obj.__module__ == mod.__name__ and isinstance(g, list):
+                corpus.extend(t for t in g if isinstance(t, str))
+    rng.shuffle(corpus)
+    texts.extend(corpus[:nbundled])
     for k in range(ncases):
         rules, _expected = gen_case(rng)
         r = Render(rng, plain=(k % 3 == 0))
@@ -521,14 +593,23 @@ def run(ctx):
         rep += 1
         ctx.report("decoder %s on %r: implementation %r, model %r" % (k, t, g, m), {"kind": "decoder", "decoder": k, "text": t, "implementation": g, "model": m},
                    key="decoder:%s:%s" % (k, t))
-    ncomp, ckinds, cbad = compile_correspondence(P, rng, ctx.budget(120, 2500))
+    ncomp, ckinds, cbad = compile_correspondence(P, rng, ctx.budget(120, 2500), ctx.budget(150, 100000))
     evals += ncomp
+    # a disagreement model / code is adjudicated by the independent reader: if the CODE deviates from what the text
+    # denotes, that text is a failing input of the property
+    for t, m, c in cbad:
+        r = ref_create(t)
+        if strip_name(c) != r and rep < 3:
+            found = True
+            rep += 1
+            ctx.report("Rule.create(%r) gives %s; the text denotes %s" % (t, c[:200], r[:200]),
+                       {"kind": "compile-text", "text": t, "code": c, "model": m, "independent_reading": r}, key="compile-text:" + lib.digest(t))
     ctx.corr_samples = [{"text": t, "model": m[:400], "code": c[:400]} for t, m, c in cbad[:5]]
     ctx.coverage["compiler_model_correspondence"] = {
         "texts": ncomp, "outcomes_of_the_real_code": ckinds, "disagreements": len(cbad),
         "compared": "Rule.create(text) in a fresh class vs the Lean model of the whole compiler (model engine on the reader's table sent over the wire, "
                     "then the model of ABNFGrammarNodeVisitor / CharValNodeVisitor / NumValVisitor): rule name, operator, full structure of the "
-                    "definition, or the exception class; generated rule texts with random layout, corrupted variants, hand-picked boundary texts"}
+                    "definition, or the exception class; generated rule texts with random layout, corrupted variants, hand-picked boundary texts, rule texts of the bundled grammar modules"}
     n = ctx.budget(160, 3000)
     chunks = 32
     import multiprocessing as mp
@@ -559,6 +640,11 @@ def run(ctx):
 
 def replay(rp):
     P = lib.import_repo()
+    if rp.get("kind") == "compile-text":
+        c = real_create(P, rp["text"])
+        r = ref_create(rp["text"])
+        print("Rule.create:", c[:300], "\nthe text denotes:", r[:300])
+        return 0 if strip_name(c) == r else 1
     if rp.get("broken") == "correspondence":
         enc = lib.Encoder(P, [P.ABNFGrammarRule("rule")])
         bad = 0
